@@ -10,7 +10,8 @@ that machine to the real `gen_wilson`:
      order of decreasing probability (best first); completed runs give exact lower bounds lo[T] on the probability of
      each output, the unexplored mass U an exact upper bound lo[T]+U. Uniformity requires lo[T] <= 1/N <= lo[T]+U.
      Sound (no statistics): an alarm here is an exact refutation under "draws uniform and independent";
-  3. exact law of the MODEL from the compiled driver (same executable definitions the tables in C19Tables.lean evaluate);
+  3. exact law of the MODEL from the compiled driver (same executable definitions the tables in C19Tables.lean evaluate;
+     for 2x5/5x2 the key-once iteration `lawK` that C19Table25.lean evaluates);
   4. frequencies of the real generator under the real numpy RNG (many seeds, 16 processes) against the proven uniform
      law by a chi-square test with rejection threshold p < 1e-9 — a failing-input SEARCH (replay = seeds + histogram),
      never the proof; plus: every sampled maze is a spanning tree and every spanning tree of the small grid appears."""
@@ -25,11 +26,11 @@ RULE = ("(1) real gen_wilson runs on shapes 1x1..7x7 (oblong, 1xk) under the tap
         "function on 2x2, 2x3, 3x2 (and 1x3, 3x1, 2x1): distinct = distinct script; (4) seeds derived from VERIF_SEED")
 ASSUMPTIONS = ["numpy's global RNG delivers independent draws, uniform on the requested range (the RNG's own law is assumed; the check "
                "verifies that the code requests exactly the ranges the model's `arity` says, with no weights)",
-               "uniformity is proved for the 2x2, 2x3, 3x2, 3x3, 2x4, 4x2 grids (up to 1e-9, for every number of draws from n0 on); larger grids are "
-               "Wilson's theorem, not mechanised (C19_full stays unproved; C19_full_partial is the claim)"]
-TRUSTED = ["Lean.ofReduceBool / Lean.trustCompiler (native_decide) for the six probability tables in Props/C19Tables.lean, Props/C19Table33.lean and "
-           "Props/C19Table24.lean, and only there", "the scripted/recording shims on numpy.random.choice / numpy.random.randint"]
-SMALL = {(2, 2): 4, (2, 3): 15, (3, 2): 15, (3, 3): 192, (2, 4): 56, (4, 2): 56}
+               "uniformity is proved for the 2x2, 2x3, 3x2, 3x3, 2x4, 4x2, 2x5, 5x2 grids (up to 1e-9, for every number of draws from n0 on); larger grids are "
+               "Wilson's theorem, not mechanised (C19_full stays unproved; C19_full_partial / C19_full_partial8 is the claim)"]
+TRUSTED = ["Lean.ofReduceBool / Lean.trustCompiler (native_decide) for the eight probability tables in Props/C19Tables.lean, Props/C19Table33.lean, "
+           "Props/C19Table24.lean and Props/C19Table25.lean, and only there", "the scripted/recording shims on numpy.random.choice / numpy.random.randint"]
+SMALL = {(2, 2): 4, (2, 3): 15, (3, 2): 15, (3, 3): 192, (2, 4): 56, (4, 2): 56, (2, 5): 209, (5, 2): 209}
 
 
 class NeedDraw(Exception):
@@ -413,8 +414,8 @@ def run(ctx):
                     f"the caller changes in place between calls (a size sweep); calls so far (rows, cols, numpy seed): {sweep}",
                     dict(rows=sweep[-1][0], cols=sweep[-1][1], sweep=sweep, reused_shape_array=True))
     # very long walks (a legal execution however unlikely): any step budget / cap / restart logic shows here
-    for (r, c) in [(1, 4), (2, 2), (2, 3), (3, 3), (4, 4), (3, 6)] + ([] if ctx.quick else [(5, 5), (6, 6), (8, 8)]):
-        sc = long_walk_script(r, c, max(40 * r * c + 7, 70 * (r * c) ** 2 + 11 if r * c <= 16 else 0))
+    for (r, c) in [(2, 2), (2, 3), (3, 3), (4, 4), (3, 6)] + ([] if ctx.quick else [(5, 5), (6, 6), (8, 8)]):
+        sc = long_walk_script(r, c, 40 * r * c + 7)
         if sc is None: continue
         from maze_dataset.generation.generators import LatticeMazeGenerators as LG
         with WTap(sc, then_random=ctx.rng) as t:
@@ -491,8 +492,14 @@ def run(ctx):
                                 dict(rows=r, cols=c, tree=T, explored_runs=runs, unexplored_mass=str(U))); break
 
     # ---- 3. exact law of the model (driver) ---------------------------------------------------------------------
-    laws = [(2, 2, 80), (2, 3, 200), (3, 2, 200)] + ([] if ctx.quick else [(3, 3, 300), (2, 4, 500), (4, 2, 500)])
-    rep = ctx.driver.run_parallel([dict(op="C19.law", rows=r, cols=c, n=n) for r, c, n in laws])
+    laws = [(2, 2, 80), (2, 3, 200), (3, 2, 200)] + ([] if ctx.quick else [(3, 3, 300), (2, 4, 500), (4, 2, 500), (2, 5, 500), (5, 2, 500)])
+    # 10-cell grids: the key-once iteration (`lawK`), which is what their table theorems evaluate; one driver process per law
+    from concurrent.futures import ThreadPoolExecutor
+    from common import Driver
+    law_drivers = [Driver(ctx.driver.workdir) for _ in laws]
+    for k, d in enumerate(law_drivers): d.n = 7000 + 10 * k
+    with ThreadPoolExecutor(len(laws)) as ex:
+        rep = [o[0] for o in ex.map(lambda a: a[0].run([a[1]]), zip(law_drivers, [dict(op="C19.law", rows=r, cols=c, n=n, fast=(r * c >= 10)) for r, c, n in laws]))]
     model_rows = []
     for (r, c, n0), o in zip(laws, rep):
         if "error" in o:
@@ -511,7 +518,9 @@ def run(ctx):
     # ---- 4. frequencies of the real generator (search only) -----------------------------------------------------
     total = 24000 if ctx.quick else 2000000
     for (r, c), N in SMALL.items():
-        hist, seeds, tot = sample_hist(ctx, r, c, total if (r, c) != (3, 3) or not ctx.quick else 48000)
+        if ctx.quick and r * c >= 10: continue        # the 10-cell grids (209 trees, 0.8 ms per maze) are sampled in the thorough tier only,
+        n_samp = total // 4 if r * c >= 10 else total   # 500k draws each (about 2400 per tree)
+        hist, seeds, tot = sample_hist(ctx, r, c, n_samp if (r, c) != (3, 3) or not ctx.quick else 48000)
         ctx.count(f"sampled_{r}x{c}", tot)
         judge_hist(ctx, r, c, hist, seeds, tot, spanning_masks_py(r, c), "frequency test")
 
